@@ -508,10 +508,15 @@ class CommitHandler(processor.CommitHandler):
         result = {}
         if props is not None:
             for name, value in props.items():
+                # The parser hands out bytes; Revision wants str names and values.
+                if isinstance(name, bytes):
+                    name = self._utf8_decode("property name", name)
                 if value is None:
                     self.warning(f"converting None to empty string for property {name}")
                     result[name] = ""
                 else:
+                    if isinstance(value, bytes):
+                        value = self._utf8_decode(f"property {name}", value)
                     result[name] = value
         return result
 
